@@ -23,11 +23,14 @@ Inductive kind := Plain | Fixed | Varying.
           trivially copy-assignable, not trivially move-assignable;
    TTrkCA trivial but for a user-provided COPY assignment operator: trivially
           move-assignable (and trivially swappable), not trivially copy-assignable;
+   TTrkCC trivial but for a user-provided COPY constructor: trivially move-constructible (the
+          move constructor is defaulted), trivially destructible;
+   TTrkMC trivial but for a user-provided MOVE constructor: trivially copy-constructible;
    TFlt   float / double (psz 4 / 8): a fundamental type that is NOT integral - == and < are
           those of IEEE-754 values (+0 == -0 although the bytes differ), so it takes none of
           the memcmp fast paths.  NaN bit patterns are outside the modelled domain
           (Proxy.fkey; C13 itself demands a reflexive ==) *)
-Inductive ty := TBlob | TUInt | TSInt | TU8 | TS8 | TByte | TTrk | TTrkC | TTrkMA | TTrkCA | TFlt.
+Inductive ty := TBlob | TUInt | TSInt | TU8 | TS8 | TByte | TTrk | TTrkC | TTrkMA | TTrkCA | TFlt | TTrkCC | TTrkMC.
 
 Record param := { pk : kind; psz : Z; pal : Z; pty : ty }.
 
